@@ -42,6 +42,18 @@ func cpuNow() time.Duration {
 	return time.Duration(ru.Utime.Nano() + ru.Stime.Nano())
 }
 
+// CPU-time limits per scenario. A scenario is reported as non-terminating only
+// after a fresh process has spent ExecHangCPU on it alone: a worker that gives
+// up after WorkerHangCPU merely nominates it. Candidates tried while minimising
+// get ShrinkHangCPU; the minimised scenario is confirmed with ExecHangCPU again
+// (the unminimised one is kept otherwise). Ordinary scenarios take milliseconds;
+// the largest size classes take a few seconds of CPU under the race detector.
+const (
+	WorkerHangCPU = 60 * time.Second
+	ExecHangCPU   = 120 * time.Second
+	ShrinkHangCPU = 10 * time.Second
+)
+
 // HangCPULimit returns the CPU-time limit per scenario (VERIF_HANG_CPU_S
 // overrides the default given).
 func HangCPULimit(def time.Duration) time.Duration {
